@@ -331,7 +331,16 @@ where
     M::Terminal: crate::AsciiDisplay,
 {
     writeln!(file, ".ver {}", settings.version)?;
-    let ascii = settings.ascii || !ExportSettings::binary_supported(manager);
+    // Binary mode does not store the terminal's value: it is only lossless if
+    // the single terminal is the one the importer assumes (`T`). A manager of
+    // a multi-terminal kind that currently holds one terminal must use ASCII.
+    let ascii = settings.ascii
+        || !ExportSettings::binary_supported(manager)
+        || manager.terminals().any(|edge| {
+            let edge = oxidd_core::util::EdgeDropGuard::new(manager, edge);
+            let is_t = Ascii(&*manager.get_node(&*edge).unwrap_terminal()).to_string() == "T";
+            !is_t
+        });
     writeln!(file, ".mode {}", if ascii { 'A' } else { 'B' })?;
 
     // TODO: other .varinfo modes?
